@@ -49,6 +49,22 @@ class UFLObject(abc.ABC):
         return not self.__eq__(other)
 
 
+def setstate_without_cached_hash(self, state):
+    """Restore pickled state but drop the cached hash (``__setstate__`` of ``Expr`` and ``BaseForm``).
+
+    Hash values of ``str``, and therefore of UFL objects, differ between
+    Python processes, so a hash cached before pickling must not be used
+    by the process that unpickles the object.
+    """
+    dict_state, slots_state = state if isinstance(state, tuple) else (state, None)
+    if dict_state:
+        self.__dict__.update(dict_state)
+    if slots_state:
+        for name, value in slots_state.items():
+            setattr(self, name, value)
+    self._hash = None
+
+
 def get_base_attr(cls, name):
     """Return first non-``None`` attribute of given name among base classes."""
     for base in cls.mro():
